@@ -7,10 +7,10 @@ import (
 	"sort"
 	"strconv"
 	"strings"
-	"text/template"
 
 	"github.com/robfig/soy/ast"
 	"github.com/robfig/soy/data"
+	"github.com/robfig/soy/internal/jsescape"
 	"github.com/robfig/soy/soymsg"
 )
 
@@ -163,7 +163,7 @@ func (s *state) walk(node ast.Node) {
 		s.js("null")
 	case *ast.StringNode:
 		s.js("'")
-		template.JSEscape(s.wr, []byte(node.Value))
+		jsescape.Escape(s.wr, []byte(node.Value))
 		s.js("'")
 	case *ast.IntNode:
 		s.js(node.String())
@@ -200,7 +200,7 @@ func (s *state) walk(node ast.Node) {
 			}
 			first = false
 			s.js("\"")
-			template.JSEscape(s.wr, []byte(k))
+			jsescape.Escape(s.wr, []byte(k))
 			s.js("\":")
 			s.walk(node.Items[k])
 		}
@@ -721,7 +721,7 @@ func (s *state) nodeFromValue(pos ast.Pos, val data.Value) ast.Node {
 func (s *state) writeRawText(text []byte) {
 	s.indent()
 	s.js(s.bufferName, " += '")
-	template.JSEscape(s.wr, text)
+	jsescape.Escape(s.wr, text)
 	s.js("';\n")
 }
 
